@@ -40,7 +40,7 @@ mod n {
         noise: bool,     // blank lines and $ comments between blocks and between attributes
         spacing: usize,  // 0: HULC style, 1: tabs and trailing blanks, 2: no indentation, one trailing blank
         reversed: bool,  // attribute order
-        numfmt: usize,   // 0: shortest, 1: six decimals, 2: exponent
+        numfmt: usize,   // 0: shortest, 1: six decimals, 2: exponent, 3: C-style exponent (1.5E+03)
         quote_words: bool,
         lists: usize,    // 0: one line, 1: one element per line with ')' after the last, 2: ')' on its own line
         preamble: bool,  // legacy LIDER preamble before the first block
@@ -94,11 +94,22 @@ mod n {
         blocks
     }
 
+    /// `1.5E+03` / `2.5E-01`: the exponent form C and Fortran programs print
+    fn c_exponent(v: f32) -> String {
+        let s = format!("{:E}", v);
+        let (m, e) = s.split_once('E').unwrap_or((&s, "0"));
+        let e: i32 = e.parse().unwrap_or(0);
+        format!("{}{}E{}{:02}", m, if m.contains('.') { "" } else { ".0" }, if e < 0 { '-' } else { '+' }, e.abs())
+    }
+
+    // (an explicit `+1.5` is not a format of this syntax: HULC never writes it, and a line that starts with `+` is a
+    // legacy LIDER header that clean_lines drops)
     fn fmt_num(v: f32, numfmt: usize) -> String {
         match numfmt {
             0 => format!("{}", v),
             1 => format!("{:.6}", v),
-            _ => format!("{:E}", v),
+            2 => format!("{:E}", v),
+            _ => c_exponent(v),
         }
     }
 
@@ -172,7 +183,7 @@ mod n {
     }
 
     fn layouts(c: &mut Ctx) -> Layout {
-        Layout { crlf: c.flag(), noise: c.flag(), spacing: c.pick(3), reversed: c.flag(), numfmt: c.pick(3), quote_words: c.flag(), lists: c.pick(3), preamble: c.flag() }
+        Layout { crlf: c.flag(), noise: c.flag(), spacing: c.pick(3), reversed: c.flag(), numfmt: c.pick(4), quote_words: c.flag(), lists: c.pick(3), preamble: c.flag() }
     }
 
     /// parent of each block as the property states it: spaces hang from the last floor, walls from the last space,
@@ -202,7 +213,7 @@ mod n {
 
     #[test]
     fn n_c18_blocks() {
-        drive("C18.blocks", "build_blocks on documents printed from 200 (quick) / 2000 (thorough) generated descriptions of 1..40 blocks of 28 kinds (0..6 attributes each: number, bare word, quoted text with blanks / commas / accents, name list, number list) x 864 layouts (LF/CRLF, comments and blank lines, 3 spacing styles, attribute order, 3 number formats, quoted words, 3 list layouts, legacy preamble): every block's name, type, parent and every attribute value", |c| {
+        drive("C18.blocks", "build_blocks on documents printed from 200 (quick) / 2000 (thorough) generated descriptions of 1..40 blocks of 28 kinds (0..6 attributes each: number, bare word, quoted text with blanks / commas / accents, name list, number list) x 1152 layouts (LF/CRLF, comments and blank lines, 3 spacing styles, attribute order, 4 number formats (shortest, six decimals, 1.5E3, 1.5E+03), quoted words, 3 list layouts, legacy preamble): every block's name, type, parent and every attribute value", |c| {
             let seeds = if c.tier_thorough { 2000 } else { 200 };
             let seed = c.pick(seeds);
             let l = layouts(c);
@@ -463,7 +474,8 @@ mod n {
         let s = match numfmt {
             0 => return original.to_string(),
             1 => format!("{}", x),
-            _ => format!("{:E}", x),
+            2 => format!("{:E}", x),
+            _ => c_exponent(x),
         };
         if s.parse::<f32>().ok() == Some(x) {
             s
@@ -523,15 +535,15 @@ mod n {
                 Some((p.file_name().unwrap().to_string_lossy().to_string(), t, base))
             })
             .collect();
-        drive("C18.relayout", "the BDL text of the 12 shipped projects and the 56 legacy LIDER files re-printed line by line in 12 (quick) / 432 (thorough) other layouts (CRLF, comments and blank lines, spacing, attribute order, number spelling, quoted words, list layout): bdl::Data::new gives the same typed data (Debug text of the whole Data) as for the original file", |c| {
+        drive("C18.relayout", "the BDL text of the 12 shipped projects and the 56 legacy LIDER files re-printed line by line in 12 (quick) / 576 (thorough) other layouts (CRLF, comments and blank lines, spacing, attribute order, number spelling, quoted words, list layout): bdl::Data::new gives the same typed data (Debug text of the whole Data) as for the original file", |c| {
             c.check("C18.relayout.corpus", corpus.len() >= 60 && corpus.iter().filter(|f| f.2.is_some()).count() >= 60, || format!("{} files, {} parse", corpus.len(), corpus.iter().filter(|f| f.2.is_some()).count()));
             let k = c.pick(corpus.len());
             let l = if c.tier_thorough {
-                Layout { crlf: c.flag(), noise: c.flag(), spacing: c.pick(3), reversed: c.flag(), numfmt: c.pick(3), quote_words: c.flag(), lists: c.pick(3), preamble: false }
+                Layout { crlf: c.flag(), noise: c.flag(), spacing: c.pick(3), reversed: c.flag(), numfmt: c.pick(4), quote_words: c.flag(), lists: c.pick(3), preamble: false }
             } else {
                 // a covering set: every option value appears, with different companions
                 let m = c.pick(12);
-                Layout { crlf: m % 2 == 1, noise: (m / 2) % 2 == 1, spacing: m % 3, reversed: (m / 3) % 2 == 1, numfmt: (m / 2) % 3, quote_words: (m / 4) % 2 == 1, lists: (m + m / 3) % 3, preamble: false }
+                Layout { crlf: m % 2 == 1, noise: (m / 2) % 2 == 1, spacing: m % 3, reversed: (m / 3) % 2 == 1, numfmt: m % 4, quote_words: (m / 4) % 2 == 1, lists: (m + m / 3) % 3, preamble: false }
             };
             let (name, text, base) = &corpus[k];
             let base = match base {
